@@ -5,6 +5,7 @@
 pub mod build;
 pub mod common;
 pub mod conv;
+pub mod ctor;
 pub mod custom;
 pub mod elf;
 pub mod header;
@@ -189,6 +190,11 @@ fn dispatch(ctx: &mut Ctx, op: &str, call: &Value) -> Value {
     }
     if let Some(v) = header::dispatch(ctx, op, call) {
         return v;
+    }
+    if op == "construct" {
+        if let Some(v) = ctor::construct_sized(call) {
+            return v;
+        }
     }
     #[cfg(feature = "builder")]
     if let Some(v) = build::dispatch(ctx, op, call) {
